@@ -26,7 +26,9 @@ CHUNK = 500
 RULE = ("gen(seed): index walks the product version{1.0,1.1} x Connection value (absent, close, "
         "Close, keep-alive, Keep-Alive, 'close, TE', 'TE, close', upgrade, TE) x method "
         "{GET,HEAD,POST,PUT} x request body framing {none,CL,chunked} x no_keep_alive x handler "
-        "{buffered, stream/end, stream/prepare, stream/data} x response {buffered, streamed} x second "
+        "{buffered, stream/end, stream/prepare, stream/data; the rng substitutes stream/late_prepare, "
+        "stream/late_data = response started early by flush() but finished after the body was read} "
+        "x response {buffered, streamed} x second "
         "request {together, split, after}; the rng adds the response status (200, explicit 204/304, "
         "304 by automatic ETag match on a conditional GET/HEAD), segmentation, client window, slow-reader "
         "schedule, handler sleep, send_cap/recv_cap/delay/defer tapes. non-trivial = the first "
@@ -63,6 +65,10 @@ CONN_10 = [None, "close", "keep-alive", "Keep-Alive", "keep-alive", "TE, close",
 METHODS = ["GET", "HEAD", "POST", "PUT"]
 FRAMINGS = ["none", "cl", "chunked"]
 HANDLERS = [("buffered", "end"), ("stream", "end"), ("stream", "prepare"), ("stream", "data")]
+# "respond early, finish late": a @stream_request_body handler that flushes the start of its
+# response from prepare() / the first data_received(), then reads the whole body and finishes
+# from the method.  Not part of the index walk (drawn by the rng).
+LATE_HANDLERS = [("stream", "late_prepare"), ("stream", "late_data")]
 RESPS = ["buffered", "streamed"]
 SECONDS = ["together", "split", "after"]
 WINDOWS = [1, 2, 7, 16, 64, 64, 256, 256, 4096, None, None, None, None]
@@ -113,6 +119,8 @@ def gen(rng, tier, index):
         nka = rng.random() < 0.3
     if version == "1.0" and framing == "none" and method not in ("GET", "HEAD"):
         method = rng.choice(["GET", "HEAD"])
+    if rng.random() < 0.18:
+        hkind, finish_at = rng.choice(LATE_HANDLERS)
     early = finish_at in ("prepare", "data")
     if early and framing == "none":
         framing = rng.choice(["cl", "chunked"])
@@ -136,7 +144,8 @@ def gen(rng, tier, index):
     # response status: 200, an explicit 204 / 304 (no body), or "etag" = conditional GET/HEAD
     # whose If-None-Match matches the automatic ETag, which finish() answers with 304
     status = rng.choice([200, 200, 200, 204, 204, 304, "etag", "etag"])
-    if status == "etag" and (method not in ("GET", "HEAD") or resp != "buffered"):
+    if status == "etag" and (method not in ("GET", "HEAD") or resp != "buffered"
+                             or finish_at.startswith("late")):
         status = rng.choice([200, 204, 304])
     hspec0 = {"status": status, "resp_n": resp_n}
     head, rb = _request_bytes(req, hspec0)
@@ -259,7 +268,9 @@ def validate(scn):
         if req["version"] == "1.0" and req["framing"] == "none" and \
                 req["method"] not in ("GET", "HEAD"):
             return False
-        if (h["kind"], h["finish_at"]) not in HANDLERS or h["resp"] not in RESPS:
+        if (h["kind"], h["finish_at"]) not in HANDLERS + LATE_HANDLERS or h["resp"] not in RESPS:
+            return False
+        if h["finish_at"].startswith("late") and h.get("status") == "etag":
             return False
         n = int(req.get("body_n", 0))
         if n < 0 or n > 5000:
@@ -348,6 +359,45 @@ def make_app(env, hspec, trace, rapp_box):
                 await gen.sleep(sleep_u * UNIT)
             h.finish(b"B:" + body)
 
+    late = finish_at.startswith("late")
+    total_len = len(b"S:") + len(body)
+
+    async def start_early(h):
+        """late_*: put the start of the response on the wire before the body is read."""
+        if trace["started"] or h._finished:
+            return
+        trace["started"] = True
+        rapp = rapp_box[0]
+        rec = rapp.records[0] if rapp.records else None
+        trace["body_read_at_start"] = bool(rec is not None and "F" in rec.events)
+        log.ev("start_early", finish_at, trace["body_read_at_start"])
+        if status in (204, 304):
+            h.set_status(status)
+        else:
+            if not streamed:
+                # a Content-Length response written in pieces
+                h.set_header("Content-Length", str(total_len))
+            h.write(b"S:" + body[:len(body) // 2])
+        f = h.flush()
+        if flush_wait:
+            await f
+
+    async def finish_late(h):
+        if h._finished or trace["responding"]:
+            return
+        if not trace["started"]:
+            await start_early(h)
+        trace["responding"] = True
+        rapp = rapp_box[0]
+        rec = rapp.records[0] if rapp.records else None
+        trace["body_read_at_finish"] = bool(rec is not None and "F" in rec.events)
+        log.ev("finish_late", finish_at, trace["body_read_at_finish"])
+        if sleep_u:
+            await gen.sleep(sleep_u * UNIT)
+        if status not in (204, 304):
+            h.write(body[len(body) // 2:])
+        h.finish()
+
     class Buffered(RequestHandler):
         SUPPORTED_METHODS = ("GET", "HEAD", "POST", "PUT")
 
@@ -364,15 +414,22 @@ def make_app(env, hspec, trace, rapp_box):
         async def prepare(self):
             if finish_at == "prepare":
                 await respond(self)
+            elif finish_at == "late_prepare":
+                await start_early(self)
 
         async def data_received(self, chunk):
             trace["data_bytes"] += len(chunk)
             trace["data_calls"] += 1
             if finish_at == "data":
                 await respond(self)
+            elif finish_at == "late_data":
+                await start_early(self)
 
         async def _go(self):
-            await respond(self)
+            if late:
+                await finish_late(self)
+            else:
+                await respond(self)
 
         get = head = post = put = _go
 
@@ -416,7 +473,8 @@ def run(scn, full_log=False):
                 + sum(s[1] for s in reader.get("steps", ()) if not reader.get("auto", True))
                 + 4 * sum(abs(int(x)) for x in delay_tape if isinstance(x, int)) + grace)
     cap = CAP_UNITS + scripted
-    trace = {"responding": False, "body_read_at_finish": None, "data_seen_at_finish": 0,
+    trace = {"started": False, "body_read_at_start": None,
+             "responding": False, "body_read_at_finish": None, "data_seen_at_finish": 0,
              "data_bytes": 0, "data_calls": 0, "second_ran": 0}
     res = {}
     rapp_box = [None]
@@ -555,6 +613,12 @@ def _judge(scn, res, trace, bad, probe):
         probe("judged_on_server_written_bytes")
     if early:
         probe("early_finish_" + finish_at)
+    if finish_at.startswith("late"):
+        probe("respond_early_finish_late")
+        if trace["body_read_at_start"] is False:
+            probe("response_started_before_body_read")
+            if keep:
+                probe("keep_expected_response_started_before_body_read")
     if second_reached:
         probe("second_reached_app")
     if res["second_sent"]:
